@@ -3606,6 +3606,7 @@ fn main() {
             "F-C16-5" => ("expected Iterable, found Foo", "`Iterable` still rejects a map with a metamap that `for` iterates"),
             "F-C16-6" => ("", "a hinted wildcard over several match subjects sees the internal TemporaryTuple"),
             "F-C16-7" => ("expected Indexable, found Range", "`Indexable` still rejects a range although `r[0]` works"),
+            "F-C16-8" => ("expected Callable, found Generator", "`Callable` still rejects a generator function although it can be called"),
             _ => continue,
         };
         let Some(w) = e["witness"].as_str() else { continue };
